@@ -237,7 +237,9 @@ COMMON_ZONE = ["zone_id", "name", "supported_power_states", "power_state", "cont
 
 def common_view(snap):
     v = {"initialised": snap["initialised"], "update_available": snap["update_available"],
-         "console_versions": snap["console_versions"], "acs": {}, "zones": {}}
+         "console_versions": snap["console_versions"], "acs": {}, "zones": {},
+         # the sequence itself: which unit is air_conditioners[0]
+         "ac_order": list(snap["acs"])}
     for a, s in snap["acs"].items():
         d = {k: s[k] for k in COMMON_AC}
         d["supported_fan_speeds"] = [f for f in s["supported_fan_speeds"]
@@ -296,6 +298,9 @@ def cases(tier, seed):
     n = 150 if tier == "quick" else 40000
     for _ in range(n):
         yield {"seed": rnd.randrange(1 << 30), "n": rnd.randint(1, 40)}
+    for perm, parts in (([1, 0], [1, 2]), ([2, 0, 1], [1, 1, 2]), ([3, 2, 1, 0], [1, 0, 2, 1]),
+                        ([0, 2, 1], [2, 1, 1])):
+        yield {"k": "order", "perm": perm, "parts": parts, "seed": 0, "n": 0}
 
 
 def run_one(gen, ai, steps, strides=(8, 10, 9), hs_push=None):
@@ -367,7 +372,48 @@ def timer_equal(a, b, ac):
     return a == b
 
 
+def run_order(case):
+    """Equal installations whose consoles list the air-conditioners in the same - not
+    ascending - order in the ability answer: `air_conditioners` is the same sequence on both
+    generations, and air_conditioners[i] is the same unit."""
+    from .. import apiworld as AW
+    viol, obs, seen = [], {}, {}
+    perm = case["perm"]
+    for gen in (4, 5):
+        out = {}
+
+        async def main(loop, net, log, gen=gen, out=out):
+            inst = C.default_installation(gen, len(perm), tuple(case["parts"]))
+            w = AW.ApiWorld(gen, loop, net, log, inst,
+                            C.Knobs(ability_order=lambda acs: [acs[i] for i in perm]))
+            out["init"] = await w.init()
+            out["order"] = [a.ac_id for a in w.at.air_conditioners]
+            out["zones"] = {a.ac_id: sorted(z.zone_id for z in a.zones)
+                            for a in w.at.air_conditioners}
+            out["listed"] = [inst["acs"][i]["ability"]["ac"] for i in perm]
+            await w.at.shutdown()
+
+        _, log, st = H.run(main)
+        out["loop"] = st
+        seen[gen] = out
+    if any(o.get("init") is not True or o["loop"] != "ok" for o in seen.values()):
+        viol.append({"mechanism": "equivalent-installations-do-not-both-initialise",
+                     "detail": {"at4": repr(seen[4]), "at5": repr(seen[5]), "perm": perm}})
+        return {"violations": viol, "evals": 1, "decided": 0, "obs": obs}
+    if seen[4]["order"] != seen[5]["order"] or seen[4]["zones"] != seen[5]["zones"]:
+        viol.append({"mechanism": "common-attribute-differs-between-generations:"
+                     "air_conditioners_order",
+                     "detail": {"listed_by_the_console": seen[4]["listed"],
+                                "at4": seen[4]["order"], "at5": seen[5]["order"]}})
+    else:
+        obs["ability_records_listed_out_of_order"] = 1
+    return {"violations": viol, "evals": 1, "decided": 1, "distinct": 1, "obs": obs,
+            "sample": {"perm": perm}}
+
+
 def run_case(case):
+    if case.get("k") == "order":
+        return run_order(case)
     rnd = random.Random(case["seed"])
     ai = abstract_installation(rnd)
     steps = gen_steps(rnd, ai, case["n"])
